@@ -540,8 +540,40 @@ macro_rules! kv_reg {
     )* };
 }
 
+/// Two different derived types with one and the same `std::any::type_name` (items of anonymous blocks carry only
+/// the path of the enclosing function): the type memo must keep them apart, alone, side by side in one message
+/// and nested in one another.
+pub fn register_same_name(v: &mut Vec<Entry>) {
+    {
+        cor_struct!(Twin { weight: f64, id: u32 });
+        type Twin1 = Twin;
+        let mut e = entry::<Twin1>();
+        e.name = "Twin#1".into();
+        v.push(e);
+        {
+            cor_struct!(Twin { label: String, id: Option<Nat> });
+            let mut e = entry::<Twin>();
+            e.name = "Twin#2".into();
+            v.push(e);
+            let mut e = entry::<(Twin1, Twin)>();
+            e.name = "(Twin#1,Twin#2)".into();
+            v.push(e);
+            let mut e = entry::<(Twin, Vec<Twin1>)>();
+            e.name = "(Twin#2,Vec<Twin#1>)".into();
+            v.push(e);
+            let mut e = entry::<G<Twin>>();
+            e.name = "G<Twin#2>".into();
+            v.push(e);
+            let mut e = entry::<G<Twin1>>();
+            e.name = "G<Twin#1>".into();
+            v.push(e);
+        }
+    }
+}
+
 /// derived, generic, recursive and reference types
 pub fn register_misc(v: &mut Vec<Entry>) {
+    register_same_name(v);
     reg!(v; S0, S1, S2, S3, S4, S5, S6, S7, S8, S9, Renamed, Bytes, Newtype, TupleS, UnitS, E1, Color, Tree, MA, MB, WrapList,
          Vec<S2>, Option<S3>, Vec<E1>, Option<E1>, BTreeMap<u8, E1>, (S1, E1), Vec<Color>, BTreeSet<Color>, BTreeMap<Color, u8>,
          List<S2>, List<Option<Int>>, G<S2>, G<Vec<u8>>, H<E1>, Vec<Tree>, Option<Tree>, Vec<MA>, (MA, MB), Option<MB>,
